@@ -69,7 +69,14 @@ def run(rep: Report, tier: str) -> None:  # noqa: C901
     # ---- R28.1 ----
     vs = P.func("vtlengine.Interpreter.InterpreterAnalyzer.visit_Start")
     g = CFG(vs.node, for_nonempty=True)
-    stores = g.stmt_nodes(lambda st: isinstance(st, ast.Assign) and src(st.targets[0]).startswith("results[") and "result" in src(st.value))
+    # the dict visit_Start returns, and the local holding the statement's result (what is stored into it)
+    ret_names = {r.value.id for r in walk_no_nested(vs.node) if isinstance(r, ast.Return) and isinstance(r.value, ast.Name)}
+    if len(ret_names) != 1:
+        raise AnalysisError("Interpreter.visit_Start: the returned results dict is not a single local")
+    RET = next(iter(ret_names))
+    stores = g.stmt_nodes(lambda st: isinstance(st, ast.Assign) and isinstance(st.targets[0], ast.Subscript) and isinstance(st.targets[0].value, ast.Name)
+                          and st.targets[0].value.id == RET and isinstance(st.value, ast.Name))
+    RES = {n.stmt.value.id for n in stores}
     raises = [n for n in g.nodes if n.stmt is not None and isinstance(n.stmt, ast.Raise) and "1-3-3-6" in src(n.stmt)]
     rep.instance("R28.1", "rejection-before-store", sample={"stores": [n.lineno for n in stores], "raise": [n.lineno for n in raises]})
     if not stores or not raises:
@@ -88,7 +95,7 @@ def run(rep: Report, tier: str) -> None:  # noqa: C901
         ok = any("rule_for" in t and "is None" in t for t in tests) and "for-all-viral" in tests
         if not ok:
             rep.add(transp.fnd("R28.1", "rejection-before-store", vs, r.lineno, f"the 1-3-3-6 rejection is not `for every viral attribute of the result: rule_for(it) is None` (guards: {tests})"))
-        outer = [n for n in g.nodes if n.kind == "test" and isinstance(n.stmt, ast.If) and "isinstance(result, Dataset)" in src(n.stmt.test)
+        outer = [n for n in g.nodes if n.kind == "test" and isinstance(n.stmt, ast.If) and any(f"isinstance({rv}, Dataset)" in src(n.stmt.test) for rv in RES)
                  and any(x is r for x in ast.walk(n.stmt))]
         if not outer:
             rep.add(transp.fnd("R28.1", "rejection-before-store", vs, r.lineno, "the rule check is not guarded by `isinstance(result, Dataset)` in the statement loop"))
@@ -116,14 +123,17 @@ def run(rep: Report, tier: str) -> None:  # noqa: C901
                 return src(ds[0])
         return src(e)
     want = {"name": ["node.name"], "signature_type": ["node.signature_type"], "target": ["node.target"],
-            "enumerated_clauses": ["node.enumerated_clauses", "clause.values", "clause.result"],
+            "enumerated_clauses": ["node.enumerated_clauses", ".values", ".result"],
             "aggregate_function": ["node.aggregate_clause.function"], "default_value": ["node.default_value"]}
     for fld, needles in want.items():
         rep.instance("R28.2", f"rule.{fld}", sample=resolved(kw[fld])[:80] if fld in kw else None)
         txt = resolved(kw[fld]) if fld in kw else ""
         if not all(n in txt for n in needles):
             rep.add(transp.fnd("R28.2", f"rule.{fld}", vd, ctor.lineno, f"ViralPropagationRule.{fld} is built from `{txt[:80]}`, which does not carry {needles} of the definition"))
-    reg_register = any(isinstance(c, ast.Call) and src(c.func).endswith("registry.register") and src(c.args[0]) == "rule" for c in ast.walk(vd.node))
+    rule_vars = {t.id for n in walk_no_nested(vd.node) if isinstance(n, (ast.Assign, ast.AnnAssign)) and n.value is ctor
+                 for t in (n.targets if isinstance(n, ast.Assign) else [n.target]) if isinstance(t, ast.Name)}
+    reg_register = any(isinstance(c, ast.Call) and isinstance(c.func, ast.Attribute) and c.func.attr == "register" and c.args
+                       and (c.args[0] is ctor or (isinstance(c.args[0], ast.Name) and c.args[0].id in rule_vars)) for c in ast.walk(vd.node))
     rep.instance("R28.2", "registered")
     if not reg_register:
         rep.add(transp.fnd("R28.2", "registered", vd, vd.node.lineno, "the rule built from the definition is not registered"))
@@ -193,49 +203,44 @@ def run(rep: Report, tier: str) -> None:  # noqa: C901
                                f"instead of {fn_} over the three values"))
 
     # ---- R28.4 ----
+    # decided by evaluation: vp_pair_sql of an enumerated rule whose clauses are declared in an adversarial order (a one-value clause
+    # before a two-value clause sharing its value) is generated by the finite evaluator, the CASE text is parsed and evaluated for every
+    # pair of operand values, and compared with the specification (a clause naming both values wins over a clause naming one)
+    from sa import sqlconc
+    from sa.e6 import ExternalObj, Interp, Raised, Unmodelled
     n_case = 0
-    for f in [x for x in P.iter_functions() if x.module.name == SQLM]:
-        arms: List[Tuple[int, int]] = []  # (line, arity)
-        lists: Dict[str, Optional[int]] = {}
-        for n in walk_no_nested(f.node):
-            if isinstance(n, ast.Assign) and isinstance(n.targets[0], ast.Name) and isinstance(n.value, ast.ListComp) and "enumerated_clauses" in src(n.value):
-                ar = None
-                for cond in n.value.generators[0].ifs:
-                    if isinstance(cond, ast.Compare) and "len(" in src(cond.left) and isinstance(cond.comparators[0], ast.Constant):
-                        ar = cond.comparators[0].value
-                lists[n.targets[0].id] = ar
-        def _iter_kind(it: ast.AST, depth: int = 0):
-            if isinstance(it, ast.Name) and it.id in lists and lists[it.id] is not None:
-                return lists[it.id]
-            if isinstance(it, ast.Name) and depth < 3:
-                ds_ = [n.value for n in walk_no_nested(f.node) if isinstance(n, ast.Assign) and any(isinstance(t, ast.Name) and t.id == it.id for t in n.targets)]
-                if len(ds_) == 1:
-                    return _iter_kind(ds_[0], depth + 1)
-            if isinstance(it, ast.Call) and isinstance(it.func, ast.Name) and it.func.id == "sorted" and any(k.arg == "key" and "len(" in src(k.value) for k in it.keywords):
-                rev = any(k.arg == "reverse" and isinstance(k.value, ast.Constant) and k.value.value is True for k in it.keywords)
-                return "desc" if rev else "asc"
-            if "enumerated_clauses" in src(it):
-                return "declared"
-            return "declared"
-        for n in walk_no_nested(f.node):
-            if isinstance(n, ast.For) and any(isinstance(c, ast.Call) and src(c.func) == "whens.append" for st in n.body for c in ast.walk(st)):
-                arms.append((n.lineno, _iter_kind(n.iter)))
-        if not arms:
-            continue
-        n_case += 1
-        seq = [a for _l, a in sorted(arms, key=lambda x: x[0])]
-        rep.instance("R28.4", f"{f.name}/arm-order", sample=seq)
-        ints = [a for a in seq if isinstance(a, int)]
-        single_arity = len(set(ints)) == 1 and len(ints) == len(seq) and len({v for v in lists.values() if v is not None}) <= 1 + (0 if len(lists) > 1 else 0)
-        bad = "asc" in seq or ("declared" in seq) or ints != sorted(ints, reverse=True)
-        # a builder that only ever looks at one-value clauses (single-operand mapping) has nothing to order
-        if seq == [1]:
-            bad = False
-        if bad:
-            rep.add(transp.fnd("R28.4", f"{f.name}/arm-order", f, f.node.lineno,
-                               f"{f.name} emits the WHEN arms of an enumerated rule in the order {seq} (arity / asc / declared): a clause naming one value can be tested before a "
-                               f"clause naming two, so for `when \"A\" and \"B\" then \"AB\"; when \"A\" then \"a\"` the pair (A, B) yields \"a\""))
-    rep.floor("R28.4 enumerated CASE builders", n_case, 1)
+    clauses = [{"values": ["A"], "result": "A1"}, {"values": ["A", "B"], "result": "AB"}, {"values": ["B"], "result": "B1"}, {"values": ["C", "B"], "result": "CB"}]
+    rule_ = ExternalObj({"name": "r", "signature_type": "variable", "target": "V", "enumerated_clauses": clauses, "aggregate_function": None, "default_value": "D"})
+    fp = P.func(f"{SQLM}.vp_pair_sql")
+    try:
+        case_sql = Interp(P).call(fp, {"rule": rule_, "a_ref": "a", "b_ref": "b"})
+    except (Unmodelled, Raised) as e:
+        raise AnalysisError(f"R28.4: vp_pair_sql outside the evaluator's language for an enumerated rule: {e}")
+    try:
+        parsed = sqlexpr.parse(str(case_sql))
+    except sqlexpr.ParseError as e:
+        raise AnalysisError(f"R28.4: the generated CASE is outside the SQL evaluator's language: {e} [{str(case_sql)[:120]}]")
+    shown = 0
+    for av in ("A", "B", "C", "X"):
+        for bv in ("A", "B", "C", "X"):
+            if av == bv:
+                continue
+            n_case += 1
+            two = [c_ for c_ in clauses if len(c_["values"]) == 2 and set(c_["values"]) == {av, bv}]
+            one = [c_ for c_ in clauses if len(c_["values"]) == 1 and c_["values"][0] in (av, bv)]
+            want = two[0]["result"] if two else (one[0]["result"] if one else "D")
+            try:
+                got = sqlconc.ev(parsed, {"a": av, "b": bv}, {})
+            except sqlconc.SqlError as e:
+                got = f"<error {e}>"
+            rep.instance("R28.4", f"pair/{av}+{bv}", sample={"values": [av, bv], "result": got} if n_case <= 3 else None)
+            if got != want and shown < 4:
+                shown += 1
+                rep.add(transp.fnd("R28.4", f"pair/{av}+{bv}", fp, fp.node.lineno,
+                                   f"enumerated rule `when \"A\" then \"A1\"; when \"A\" and \"B\" then \"AB\"; when \"B\" then \"B1\"; when \"C\" and \"B\" then \"CB\"; else \"D\"`: "
+                                   f"combining {av!r} and {bv!r} yields {got!r}, the rule says {want!r} (a clause naming both values is tested before a clause naming one) "
+                                   f"[generated: {str(case_sql)[:110]}]"))
+    rep.floor("R28.4 value pairs evaluated", n_case, 12)
 
     # ---- R28.5 ----
     issues, _ = orderlint.lint_program(P)
